@@ -120,12 +120,12 @@ if m=='M10':  # lock-order inversion: the package cache's writer peeks into the 
 	state.pkgCacheMu.Unlock()''')
 
 if m=='M11':  # dependency answers cached engine-wide again (regression of fix a1ea77d)
-    sub('engine.go','''			importer.depTypes[key] = typ
-			return typ, nil''','''			importer.depTypes[key] = typ
-			state.typeByFQNMu.Lock()
-			state.typeByFQN[fqn] = typ
-			state.typeByFQNMu.Unlock()
-			return typ, nil''')
+    sub('engine.go','''				importer.depTypes[key] = typ
+				return typ, nil''','''				importer.depTypes[key] = typ
+				state.typeByFQNMu.Lock()
+				state.typeByFQN[fqn] = typ
+				state.typeByFQNMu.Unlock()
+				return typ, nil''')
 if m=='M12':  # the RunnerState allocated for a nil State is stored back into the caller's RunContext (seed C08-13)
     sub('runner.go','''		runnerState = newRunnerState(state)
 ''','''		runnerState = newRunnerState(state)
@@ -462,3 +462,14 @@ if m=='M30':  # the printer fallback of nodeText prints into a buffer kept in th
 	return buf.Bytes()''')
     sub('runner.go','''		bgContext:      context.Background(),''','''		bgContext:      context.Background(),
 		state:          state,''')
+if m=='M31':  # the engine-wide cache is consulted before the dependencies of the checked package again (regression of fix d9e46be)
+    sub('engine.go','''	pos := strings.LastIndexByte(fqn, '.')
+''','''	pos := strings.LastIndexByte(fqn, '.')
+
+	state.typeByFQNMu.RLock()
+	early, hit := state.typeByFQN[fqn]
+	state.typeByFQNMu.RUnlock()
+	if hit {
+		return early, nil
+	}
+''')
